@@ -227,66 +227,19 @@ func (os *OutputStream) Delete(inputID robust.Id) error {
 // GetNext blocks until it appears.
 // GetNext(types.RobustId{Id: 0}) returns the first message.
 func (os *OutputStream) GetNext(ctx context.Context, lastseen robust.Id) []Message {
-	// GetNext handles 4 different cases:
-	//
-	// ┌──────────────────┬───────────┬───────────────────────────────────────┐
-	// │ lastseen message │  nextid   │ outcome                               │
-	// ├──────────────────┼───────────┼───────────────────────────────────────┤
-	// │    exists        │   valid   │ return                                │
-	// │    exists        │ not found │ binary search for more recent message │
-	// │    exists        │  MaxInt64 │ block until next message              │
-	// │   not found      │     /     │ binary search for more recent message │
-	// └──────────────────┴───────────┴───────────────────────────────────────┘
-	//
-	// Note that binary search may fall-through to blocking in case it cannot
-	// find a more recent message.
-
 	os.messagesMu.RLock()
-	current, ok := os.getUnlocked(uint64(lastseen.Id))
-	if ok && current.NextID < math.MaxUint64 {
-		next, okNext := os.getUnlocked(current.NextID)
-		if okNext {
-			os.messagesMu.RUnlock()
-			return next.Messages
-		}
-		// NextID points to a deleted message, fall back to binary search.
-		ok = false
-	}
-
-	if !ok {
-		// Anything _newer_ than lastseen, i.e. the interval [lastseen.Id+1, ∞)
-		var key [8]byte
-		binary.BigEndian.PutUint64(key[:], uint64(lastseen.Id)+1)
-		i := os.db.NewIterator(&util.Range{
-			Start: key[:],
-			Limit: nil,
-		}, nil)
-		defer i.Release()
-		if i.First() {
-			mb := unmarshalMessageBatch(i.Value())
-			os.messagesMu.RUnlock()
-			return mb.Messages
-		}
-
-		// There is no message which is more recent than lastseen, so just take
-		// the last message and fallthrough into the code path that waits for
-		// newer messages.
-		i = os.db.NewIterator(nil, nil)
-		defer i.Release()
-		if !i.Last() {
-			log.Panicf("outputstream LevelDB is empty, which is a BUG\n")
-		}
-
-		current = unmarshalMessageBatch(i.Value())
-	}
+	next := os.nextUnlocked(uint64(lastseen.Id))
 	os.messagesMu.RUnlock()
+	if next != nil {
+		return next.Messages
+	}
 
-	// Wait until a new message appears.
+	// Wait until a new message appears. The lookup is repeated from scratch
+	// after every wake-up because the messages we looked at before might have
+	// been deleted (compaction) while we were waiting.
 	os.messagesMu.Lock()
 	for {
-		current, _ = os.getUnlocked(uint64(current.Messages[0].Id.Id))
-		next, ok := os.getUnlocked(current.NextID)
-		if ok {
+		if next := os.nextUnlocked(uint64(lastseen.Id)); next != nil {
 			os.messagesMu.Unlock()
 			return next.Messages
 		}
@@ -298,6 +251,48 @@ func (os *OutputStream) GetNext(ctx context.Context, lastseen robust.Id) []Messa
 		}
 		os.newMessage.Wait()
 	}
+}
+
+// nextUnlocked returns the message batch with the smallest id greater than
+// |id|, or nil if there is no such batch (yet). It handles 4 different cases:
+//
+// ┌──────────────────┬───────────┬───────────────────────────────────────┐
+// │ lastseen message │  nextid   │ outcome                               │
+// ├──────────────────┼───────────┼───────────────────────────────────────┤
+// │    exists        │   valid   │ return                                │
+// │    exists        │ not found │ binary search for more recent message │
+// │    exists        │  MaxInt64 │ nil (caller blocks until next message)│
+// │   not found      │     /     │ binary search for more recent message │
+// └──────────────────┴───────────┴───────────────────────────────────────┘
+//
+// Note that binary search returns nil in case it cannot find a more recent
+// message.
+func (os *OutputStream) nextUnlocked(id uint64) *messageBatch {
+	if current, ok := os.getUnlocked(id); ok {
+		if current.NextID == math.MaxUint64 {
+			return nil
+		}
+		if next, ok := os.getUnlocked(current.NextID); ok {
+			return next
+		}
+		// NextID points to a deleted message, fall back to binary search.
+	}
+	if id == math.MaxUint64 {
+		return nil
+	}
+
+	// Anything _newer_ than id, i.e. the interval [id+1, ∞)
+	var key [8]byte
+	binary.BigEndian.PutUint64(key[:], id+1)
+	i := os.db.NewIterator(&util.Range{
+		Start: key[:],
+		Limit: nil,
+	}, nil)
+	defer i.Release()
+	if i.First() {
+		return unmarshalMessageBatch(i.Value())
+	}
+	return nil
 }
 
 // InterruptGetNext interrupts any running GetNext() calls so that they return
